@@ -166,3 +166,71 @@ def wrap(us, uid, f, *a):
             U.must_fail_twin(r, "vacuity.must_fail_twin", lambda: f(*a, twin=True))
         return r
     us.append((uid, g))
+
+
+def _assigns_to(rel, st, name):
+    """does statement st (not descending into loops/ifs) assign to the variable/member `name`? returns the rhs text or None"""
+    k = st.get("kind")
+    if k in ("BinaryOperator", "CompoundAssignOperator") and st.get("opcode", "").endswith("="):
+        if st.get("opcode") in ("==", "<=", ">=", "!="):
+            return None
+        lhs = text_of(rel, st["inner"][0])
+        if lhs in (name, "this->" + name, "*" + name):
+            return (st.get("opcode"), text_of(rel, st["inner"][1]))
+    if k == "DeclStmt":
+        for d in st.get("inner", []):
+            if d.get("kind") == "VarDecl" and d.get("name") == name and d.get("init"):
+                return ("=", text_of(rel, d["inner"][-1]))
+    return None
+
+
+def initial_value_before(fn, rel, loop_node, name):
+    """the value the nearest preceding straight-line assignment gives to `name` before control reaches `loop_node`:
+    ('=', text) | None when no assignment precedes it in the enclosing blocks (then the accumulator enters the loop with
+    whatever an earlier iteration or the caller left)."""
+    path = []
+    def find(n, trail):
+        if n is loop_node:
+            path.extend(trail); return True
+        for c in n.get("inner", []) or []:
+            if isinstance(c, dict) and find(c, trail + [n]):
+                return True
+        return False
+    find(fn, [])
+    target = loop_node
+    for anc in reversed(path):
+        if anc.get("kind") == "CompoundStmt":
+            sibs = anc.get("inner", [])
+            idx = next((i for i, c in enumerate(sibs) if c is target), None)
+            if idx is not None:
+                for st in reversed(sibs[:idx]):
+                    a = _assigns_to(rel, st, name)
+                    if a is not None:
+                        return a
+                    # an intervening statement that may write it in a nested way makes the answer unknown
+                    if st.get("kind") in ("ForStmt", "WhileStmt", "DoStmt", "IfStmt", "SwitchStmt") and any(
+                            _assigns_to(rel, y, name) for y in A.walk(st) if isinstance(y, dict)):
+                        return ("?", "assigned inside an earlier nested statement")
+        if anc.get("kind") in ("ForStmt", "WhileStmt", "DoStmt"):
+            # leaving an enclosing loop upwards: an assignment outside it does not re-initialise per iteration
+            return None
+        target = anc
+    return None
+
+
+def check_accumulator_init(r, fn, rel, loop_node, name, label, zero=("0", "0.0", "0.0e0", "0.", "0.0e+00")):
+    from vf.core import FAILED, DISCHARGED, UNDECIDED
+    a = initial_value_before(fn, rel, loop_node, name)
+    if a is None:
+        r.add("%s.accumulator_%s_initialised_before_its_loop" % (label, name), FAILED, "syntactic", 0,
+              "no assignment to %s precedes the loop inside the enclosing iteration: it carries over from the previous pass" % name, kind="establishment")
+    elif a[0] == "=" and a[1] in zero:
+        r.add("%s.accumulator_%s_initialised_before_its_loop" % (label, name), DISCHARGED, "syntactic", 0, "%s = %s" % (name, a[1]), kind="establishment")
+    elif a[0] == "?":
+        r.add("%s.accumulator_%s_initialised_before_its_loop" % (label, name), UNDECIDED, "syntactic", 0, a[1], kind="establishment")
+    else:
+        r.add("%s.accumulator_%s_initialised_before_its_loop" % (label, name), FAILED, "syntactic", 0, "nearest preceding assignment: %s %s %s" % (name, a[0], a[1]), kind="establishment")
+
+
+def loop_node(fn, ordinal):
+    return [x for x in A.walk(fn) if x.get("kind") in ("ForStmt", "WhileStmt", "DoStmt")][ordinal]
